@@ -343,6 +343,14 @@ func pathParams(path string) []pathParam {
 
 // Expected builds the JDoc Exchange document the model must serialise to.
 func (d *Doc) Expected() *O {
+	typeSchemas := map[string]*S{}
+	for _, b := range d.Blocks {
+		if t, ok := b.(*Type); ok && t.Body.Kind == "schema" {
+			typeSchemas[t.Name] = t.Body.S
+		}
+	}
+	Resolve = func(n string) *S { return typeSchemas[n] }
+	defer func() { Resolve = nil }()
 	root := NewO(false)
 	tags := NewO(true)
 	servers := NewO(true)
